@@ -247,9 +247,32 @@ def run(ctx):
     if m is None:
         ctx.violation("R06.1", "eval:match", f["span"], "UNRECOGNISED: no match over the expression kinds")
         return
-    un = ctx.fn("patronus", UN_OP)
-    bi = ctx.fn("patronus", BIN_OP)
-    helper_order = {UN_OP: helper_pops(ctx, un, 1), BIN_OP: helper_pops(ctx, bi, 2)}
+    # the helpers that pop n operands, apply a closure to them and push the result (today the free functions un_op / bin_op): discovered
+    # from the calls in the arms, so that they may as well be methods of the stack
+    helper_cache = {}
+    c_lib = ctx.facts.lib("patronus")
+
+    def helper_info(call):
+        cp = callee(call)
+        if not cp:
+            return None
+        if cp not in helper_cache:
+            fl = c_lib.fns.get(cp)
+            info_ = None
+            if fl and len(fl) == 1:
+                hf = fl[0]
+                P_ = [binding_of_pat(p) for p in hf["params"]]
+                ids = [b_[1] if b_ else None for b_ in P_]
+                pops_on = {canon(local_id(x["recv"])) for x in walk(hf["body"]) if x.get("k") == "mcall" and x["name"] == "pop" and local_id(x["recv"]) is not None}
+                called = {canon(local_id(x["f"])) for x in walk(hf["body"]) if x.get("k") == "callv" and local_id(x["f"]) is not None}
+                si = [i for i, v in enumerate(ids) if v is not None and canon(v) in pops_on]
+                oi = [i for i, v in enumerate(ids) if v is not None and canon(v) in called]
+                if len(si) == 1 and len(oi) == 1:
+                    npops = len([x for x in walk(hf["body"]) if x.get("k") == "mcall" and x["name"] == "pop" and is_local(x["recv"], ids[si[0]])])
+                    okh = helper_pops(ctx, hf, npops, si[0], oi[0])
+                    info_ = (okh, si[0], oi[0])
+            helper_cache[cp] = info_
+        return helper_cache[cp]
     seen = set()
     for alt, arm in match_arms(m):
         vp = variant_pat(alt)
@@ -297,11 +320,12 @@ def run(ctx):
         sim = Sim(bv0, ar0, stacks, attrs)
         b = peel_block(body)
         got = None
-        if b.get("k") == "call" and callee(b) in helper_order:
-            npop = helper_order[callee(b)]
-            cl = peel(b["args"][1])
-            cl = resolve(b["args"][1])
-            if npop is None or cl.get("k") != "closure" or len(cl["params"]) != npop or sim.which(b["args"][0]) != "bv":
+        hinfo = helper_info(b) if b.get("k") in ("call", "mcall") else None
+        if hinfo is not None:
+            npop, si_, oi_ = hinfo
+            bargs = call_args(b) if b.get("k") == "mcall" else b["args"]
+            cl = resolve(bargs[oi_])
+            if npop is None or cl.get("k") != "closure" or len(cl["params"]) != npop or sim.which(bargs[si_]) != "bv":
                 ctx.violation("R06.1", "eval:%s" % name, arm["sp"], "UNRECOGNISED helper call %s" % show(b)[:100])
                 continue
             env = dict(attrs)
@@ -411,9 +435,10 @@ def fmt(t):
     return "%s(%s)" % (t[0], ", ".join(fmt(x) for x in t[1:]))
 
 
-def helper_pops(ctx, f, n):
+def helper_pops(ctx, f, n, si=0, oi=1):
     """un_op/bin_op pop n operands from the stack parameter in order and call op(a[, b]) in that order, pushing the result"""
     P = [binding_of_pat(p) for p in f["params"]]
+    P = [P[si], P[oi]]
     ix = Index(f["body"])
     order = []
     pops = [x for x in ix.nodes if x.get("k") == "mcall" and x["name"] == "pop" and is_local(x["recv"], P[0][1])]
